@@ -15,8 +15,22 @@ type taint struct {
 	active bool
 	all    bool
 	memAny bool
-	regs   [isa.NumRegs]bool
-	lines  map[int32]bool
+	// ctrl: a tainted value reaches a branch, an indirect jump or the base of a
+	// load/store: the machine may take another path / touch other lines
+	ctrl  bool
+	regs  [isa.NumRegs]bool
+	lines map[int32]bool
+}
+
+// explainsClass: for a timing difference between two architecturally right
+// runs (C12 value independence) a result-corrupting defect is an explanation
+// only if what it corrupts reaches control flow or addressing; otherwise every
+// mismatch of v must lie inside the taint.
+func (t *taint) explainsClass(class string, v *core.Verdict) bool {
+	if baseClass(class) == "value-dependent-cycles" {
+		return t != nil && t.active && (t.all || t.ctrl)
+	}
+	return t.explains(v)
 }
 
 // explains tells whether every mismatch of v lies inside the taint.
@@ -81,6 +95,9 @@ func propagate(p *isa.Program, ref *isa.Result, origins []origin) *taint {
 				dirty = true
 			}
 		}
+		if (in.Op.IsLoad() || in.Op.IsStore()) && in.Rs1 != isa.Zero && t.regs[in.Rs1] {
+			t.ctrl = true
+		}
 		switch {
 		case in.Op.IsLoad():
 			if t.memAny || t.lines[st.Addr>>6] {
@@ -95,6 +112,7 @@ func propagate(p *isa.Program, ref *isa.Result, origins []origin) *taint {
 		case in.Op.IsCondBranch(), in.Op == isa.JALR:
 			if dirty {
 				t.all = true
+				t.ctrl = true
 			}
 		}
 		if rd, w := in.Writes(); w && rd != isa.Zero && dirty {
@@ -104,6 +122,7 @@ func propagate(p *isa.Program, ref *isa.Result, origins []origin) *taint {
 			switch {
 			case o.all:
 				t.all = true
+				t.ctrl = true
 			case o.memAny:
 				t.memAny = true
 			case o.hasLine:
